@@ -7,6 +7,7 @@
 //!        (sym:<module>:<records>)* (symraw:<module>:<hex text>)*
 //! STACK CFI rule text inside `sym:` records: `C`/`A` readable (`_` = space, plain texts only),
 //! `c`/`a` hex-encoded UTF-8 (anything a symbol-file line can hold).
+//! optional LAST field `be:1` (`be:0`): the stack memory is read big-endian (a big-endian dump).
 //! `symraw` fields carry arbitrary symbol text (corrupted files, STACK WIN records): such cases are
 //! oracle-only (the model is not asked). The shared pieces are `pub` for the `chain` engine.
 
@@ -43,6 +44,8 @@ pub struct Case {
     pub symraw: Vec<(String, Vec<u8>)>,
     /// extra leading fields of other engines (`chain` puts its technique/expectation there)
     pub extra: Vec<String>,
+    /// the stack memory belongs to a big-endian dump (optional trailing field `be:1`)
+    pub be: bool,
 }
 
 pub fn ptr_of(arch: &str) -> u64 {
@@ -184,6 +187,9 @@ impl Case {
         for (n, text) in &self.symraw {
             s.push_str(&format!(" symraw:{}:{}", n, hex(text)));
         }
+        if self.be {
+            s.push_str(" be:1");
+        }
         s
     }
 
@@ -234,7 +240,12 @@ impl Case {
                 c.mods.push((p[0].parse().ok()?, p[1].parse().ok()?, p[2].to_string()));
             }
         }
-        for s in &f[6..] {
+        let mut tail = &f[6..];
+        if let Some(last) = tail.last().filter(|l| **l == "be:1" || **l == "be:0") {
+            c.be = *last == "be:1";
+            tail = &tail[..tail.len() - 1];
+        }
+        for s in tail {
             if let Some(body) = s.strip_prefix("sym:") {
                 let (n, recs) = body.split_once(':').unwrap_or((body, ""));
                 let mut out = vec![];
@@ -385,7 +396,7 @@ pub fn run_walk(case: &Case) -> Result<CallStack, String> {
             base_address: *base,
             size: bytes.len() as u64,
             bytes,
-            endian: scroll::LE,
+            endian: if case.be { scroll::BE } else { scroll::LE },
         });
         // a walk that does not stop would exhaust memory: cut it off well past the C03 bound
         let limit = case.stack.as_ref().map(|s| s.1.len()).unwrap_or(0) + 64;
@@ -448,13 +459,14 @@ pub fn show_stack(case: &Case, stack: &CallStack) -> String {
     out
 }
 
-fn read_le(bytes: &[u8], off: u64, w: u64) -> Option<u64> {
+/// a `w`-byte word in the given byte order
+fn read_word(bytes: &[u8], off: u64, w: u64, be: bool) -> Option<u64> {
     let off = usize::try_from(off).ok()?;
     let end = off.checked_add(w as usize)?;
     let s = bytes.get(off..end)?;
     let mut v = 0u64;
     for (i, b) in s.iter().enumerate() {
-        v |= (*b as u64) << (8 * i);
+        v |= (*b as u64) << (8 * if be { s.len() - 1 - i } else { i });
     }
     Some(v)
 }
@@ -512,7 +524,7 @@ pub fn wf_oracle(case: &Case, stack: &CallStack) -> Vec<(String, String)> {
                 };
                 let word = case.stack.as_ref().and_then(|(base, bytes)| {
                     let addr = sp.checked_sub(w)?;
-                    read_le(bytes, addr.checked_sub(*base)?, w)
+                    read_word(bytes, addr.checked_sub(*base)?, w, case.be)
                 });
                 if word != Some(ra) {
                     bad.push(("scan-word-mismatch".into(), format!("frame {i}: sp {sp}, return address {ra}, word below sp inside the stack memory: {word:?}")));
@@ -1022,6 +1034,7 @@ fn gen_case(rng: &mut Rng, arch: &str, os: &str, with_cfi: bool) -> Case {
         syms: world.syms,
         symraw: vec![],
         extra: vec![],
+        be: false,
     }
 }
 
@@ -1241,6 +1254,7 @@ fn gen_guided(rng: &mut Rng, arch: &str, os: &str) -> Case {
         syms: world.syms,
         symraw: vec![],
         extra: vec![],
+        be: false,
     }
 }
 
@@ -1308,6 +1322,18 @@ impl Engine for Walk {
                 };
                 let with_cfi = i % 3 != 0;
                 let c = if i % 2 == 1 { gen_guided(rng, arch, os) } else { gen_case(rng, arch, os, with_cfi) };
+                if i % 25 == 3 {
+                    // the same stack as a big-endian dump holds it: every aligned word byte-swapped,
+                    // read back big-endian (unaligned reads see other words than the original's)
+                    let mut b = c.clone();
+                    if let Some((_, bytes)) = &mut b.stack {
+                        for w in bytes.chunks_mut(ptr_of(arch) as usize) {
+                            w.reverse();
+                        }
+                    }
+                    b.be = true;
+                    emit(b.render());
+                }
                 if i % 8 == 7 && !c.syms.is_empty() {
                     emit(make_raw(rng, c).render());
                 } else {
